@@ -367,6 +367,23 @@ def judge_pack(ctx, c):
             ctx.mismatch(f'C18|pack|{which if which != "length" else gclass(groups)}|{shape}', short(c),
                          f'fmt={fmt!r} item {idx} value {v!r}: got {raw.hex()} expected {exp.hex()}')
 
+    # ---- the same groups given as a list of format strings, then the first group alone again ----------------
+    parts = [x.strip() for x in fmt.split(',')]
+    if len(groups) > 1 and len(parts) == len(groups):
+        n0 = sum(k for k, _ in groups[0][1])
+        exp0 = b''.join(x[2] for x in per_item[:n0])
+        gl = call(lambda: bitstring.pack(parts, *vals).tobytes())
+        g0 = call(lambda: bitstring.pack(parts[0], *vals[:n0]).tobytes())
+        ctx.op('pack-list', outcome(gl))
+        nan = any(isinstance(v, float) and math.isnan(v) for v in vals)
+        if nan or (gl == ('ok', exp) and g0 == ('ok', exp0)):
+            ctx.ok(('pack-list',) + key_tail, nontrivial)
+        elif gl != ('ok', exp):
+            ctx.mismatch(f'C18|pack-list|{gclass(groups)}|bytes', short(c), f'pack({parts!r}): got {gl!r:.120} expected {exp.hex()}')
+        else:
+            ctx.mismatch(f'C18|pack-after-list|{gclass(groups)}|differs', short(c),
+                         f'pack({parts[0]!r}) after pack({parts!r}): got {g0!r:.120} expected {exp0.hex()}')
+
     # ---- unpack / readlist invert it (from struct's bytes, at a bit offset) -----------------------------
     expv = oracle_unpack(groups, exp)
     body = to_bits(exp)
